@@ -32,6 +32,10 @@ def plan(tier: str, seed: int) -> Plan:
                                   "the decoding-off parse (symbolic uri_decode) must read the text per RFC 6901; symbolic leaf"))
     conds.append(Condition("limit-tokens", "errors", H, "limit_tokens", {}, T, required=False,
                            bounds="6 digit tokens up to and including 2**53 - 1 as member names and as indices of an array of length<=2; symbolic leaf"))
+    for form, fname in enumerate(["text", "text-file", "binary-file"]):
+        conds.append(Condition(f"forms:{fname}", "forms", H, "forms", {"form": form}, T * 2, required=False,
+                               bounds=f"the document as {fname}: 3 documents x 6 pointers x 4 leading blank strings x {{compact, indented}} "
+                                      "(solver-driven enumeration: json is a C boundary)"))
     conds.append(Condition("index-render", "errors", H, "index_render", {}, T, bounds="index 0..12 rendered as decimal text, array length<=4"))
     return Plan(
         conditions=conds,
